@@ -148,8 +148,9 @@ def make_icrs(ra, dec, which='skycoord', form=None):
     dtype of the arrays handed to astropy"""
     import astropy.units as u
     from astropy.coordinates import ICRS, SkyCoord
-    ra = np.array(ra, dtype=float) if form is None else as_form(ra, form, True)
-    dec = np.array(dec, dtype=float) if form is None else as_form(dec, form, True)
+    f1, f2 = form if isinstance(form, (tuple, list)) else (form, form)
+    ra = np.array(ra, dtype=float) if f1 is None else as_form(ra, f1, True)
+    dec = np.array(dec, dtype=float) if f2 is None else as_form(dec, f2, True)
     if which == 'frame':
         return ICRS(ra=ra * u.deg, dec=dec * u.deg)
     return SkyCoord(ra=ra * u.deg, dec=dec * u.deg, frame='icrs')
@@ -159,8 +160,9 @@ def make_munu(stripe, mu, nu, which='skycoord', form=None):
     import astropy.units as u
     from astropy.coordinates import SkyCoord
     from pydl.pydlutils.coord import SDSSMuNu
-    mu = np.array(mu, dtype=float) if form is None else as_form(mu, form, True)
-    nu = np.array(nu, dtype=float) if form is None else as_form(nu, form, True)
+    f1, f2 = form if isinstance(form, (tuple, list)) else (form, form)
+    mu = np.array(mu, dtype=float) if f1 is None else as_form(mu, f1, True)
+    nu = np.array(nu, dtype=float) if f2 is None else as_form(nu, f2, True)
     if which == 'frame':
         return SDSSMuNu(mu=mu * u.deg, nu=nu * u.deg, stripe=stripe)
     return SkyCoord(mu=mu * u.deg, nu=nu * u.deg, frame=SDSSMuNu(stripe=stripe))
@@ -223,6 +225,34 @@ def as_form(v, form, array=False):
     if a.min() < info.min or a.max() > info.max:
         raise core.MachineryError('value %r does not fit %s' % (v, form))
     return a.astype(form) if array else np.dtype(form).type(int(a))
+
+
+GC_MIX_ARGS = {'all': (0, 1, 2, 3), 'ra': (0, 2), 'dec': (1, 3), 'p1': (0, 1), 'p2': (2, 3), 'scalar-p1': (0, 1), 'scalar-p2': (2, 3),
+               'pyint-ra': (0, 2), 'pyint-dec': (1, 3)}
+
+
+def gcirc_mixed_args(vals, form, mix, array):
+    """the four gcirc arguments (vals: sequences of equal length, or single numbers when array is False) with the integer
+    form given to the arguments `mix` names and float64 to the others.  scalar-p* / pyint-*: the integer arguments are
+    scalars (the first element), the others float arrays."""
+    ints = GC_MIX_ARGS[mix]
+    out = []
+    for k, v in enumerate(vals):
+        if mix.startswith('scalar-') or mix.startswith('pyint-'):
+            if k in ints:
+                v0 = v[0] if isinstance(v, (list, tuple, np.ndarray)) else v
+                out.append(as_form(v0, 'pyint' if mix.startswith('pyint-') else form))
+            else:
+                out.append(np.array(v, dtype=np.float64).reshape(-1))
+        elif k in ints:
+            out.append(as_form(v, form, array))
+        else:
+            out.append(np.array(v, dtype=np.float64) if array else np.float64(v))
+    return out
+
+
+def mix_ok(mix, form):
+    return form == 'pyint' if mix.startswith('pyint-') else (form != 'pyint' or mix == 'all')
 
 
 def pick_form(forms, n, array=False):
@@ -307,7 +337,8 @@ def _anchor_eval(stripe, direction, lon, lat, shape, cache):
         shok[:] = res.shape == (n,)
     elif isinstance(shape, tuple) and shape and shape[0] == 'int':
         # integer-typed coordinate arrays (whole degrees) and an integer-typed stripe number
-        _, form, sform = shape
+        _, form, sform = shape[:3]
+        form = {'all': (form, form), 'lon': (form, None), 'lat': (None, form)}[shape[3] if len(shape) > 3 else 'all']
         sv = as_form(stripe, sform)
         obj = make_munu(sv, lon, lat, form=form) if direction == 'fwd' else make_icrs(lon, lat, form=form)
         for _ in range(2):
@@ -351,7 +382,7 @@ def replay_anchor_group(stripe, direction, group, cache=None, shape=None):
     lat = [e['src']['lat'] / 10.0 for _, e in group]
     cache = {} if cache is None else cache
     form = ('1-D array' if shape is None else shape if shape == 'scalar' else
-            '%s array, stripe as %s' % (shape[1], shape[2]) if shape[0] == 'int' else 'array of shape %s' % (tuple(shape),))
+            '%s array (%s), stripe as %s' % (shape[1], shape[3] if len(shape) > 3 else 'all', shape[2]) if shape[0] == 'int' else 'array of shape %s' % (tuple(shape),))
     try:
         glon, glat, kept, shok = _anchor_eval(stripe, direction, lon, lat, shape, cache)
     except Exception as ex:
@@ -414,6 +445,15 @@ def replay_dist(c, exp, n=0):
         calls.append((form, False, [as_form(v, form) for v in a]))
         if form != 'pyint':
             calls.append((form, True, [as_form([v, v], form, True) for v in a]))
+    if form:                     # ... and with the integer type given to a subset of the arguments only
+        mixes = [m for m in sorted(exp.get('mixes', ())) if m != 'all' and mix_ok(m, form)]
+        if mixes:
+            mix = mixes[(n // max(1, len(exp['forms']))) % len(mixes)]
+            if mix.startswith('scalar-') or mix.startswith('pyint-'):
+                calls.append(('%s for %s, others float64' % (form, mix), True, gcirc_mixed_args([[v, v] for v in a], form, mix, True)))
+            else:
+                calls.append(('%s for %s, others float64' % (form, mix), False, gcirc_mixed_args(a, form, mix, False)))
+                calls.append(('%s for %s, others float64' % (form, mix), True, gcirc_mixed_args([[v, v] for v in a], form, mix, True)))
     obs, fails = None, []
     for fm, arr, args in calls:
         try:
@@ -547,7 +587,7 @@ def replay_cases(ctx, cases, geo):
             form = NP_FORMS[(s + (1 if d == 'inv' else 0)) % len(NP_FORMS)]
             sform = pick_form(geo['stripe_forms'][s], s + (2 if d == 'inv' else 0))
             isub = [j for j in range(len(part)) if form in part[j][1]['forms']]
-            ints = dict(zip(isub, replay_anchor_group(s, d, [part[j] for j in isub], cache, ('int', form, sform)))) if isub else {}
+            ints = dict(zip(isub, replay_anchor_group(s, d, [part[j] for j in isub], cache, ('int', form, sform, ['all', 'lon', 'lat'][(s + (1 if d == 'inv' else 0)) % 3])))) if isub else {}
             for j, (c, exp) in enumerate(part):
                 cands = [f[j] for f in forms] + ([scal[j]] if j in scal else []) + ([ints[j]] if j in ints else [])
                 bad = [r for r in cands if not r[0]]
@@ -1160,20 +1200,36 @@ def form_probe(inf):
     from pydl.pydlutils.coord import stripe_to_eta, stripe_to_incl
     from pydl.pydlutils.mangle import cap_distance
     fn, form, arr = inf['fn'], inf['form'], inf['arr']
-    rec = {'kind': 'form', 'fn': fn, 'form': form, 'arr': arr, 'raised': False, 'nan': False, 'polar': False, 'disc': CAP}
+    mix = inf.get('mix', 'all')
+    rec = {'kind': 'form', 'fn': fn, 'form': form, 'mix': mix, 'arr': arr, 'raised': False, 'nan': False, 'polar': False, 'disc': CAP}
     try:
         with np.errstate(all='ignore'):
             if fn == 'gcirc':
                 a = inf['args']
-                if arr:
-                    got = call_gcirc(*[as_form(v, form, True) for v in a], inf['units'])
-                    ref = call_gcirc(*[np.array(v, dtype=float) for v in a], inf['units'])
+                if mix.startswith('scalar-') or mix.startswith('pyint-'):
+                    # the integer arguments are scalars (first pair's values), the others float arrays
+                    ints = GC_MIX_ARGS[mix]
+                    b = [[v[0]] * len(v) if k in ints else v for k, v in enumerate(a)]
+                    got = call_gcirc(*gcirc_mixed_args(b, form, mix, True), inf['units'])
+                    ref = call_gcirc(*[np.array(v, dtype=float) for v in b], inf['units'])
+                    gotr = call_gcirc(*(lambda m: m[2:] + m[:2])(gcirc_mixed_args(b, form, mix, True)), inf['units'])
+                    got, ref = np.concatenate([np.ravel(got), np.ravel(gotr)]), np.concatenate([np.ravel(ref), np.ravel(ref)])
+                elif arr:
+                    m = gcirc_mixed_args(a, form, mix, True)
+                    got = np.concatenate([np.ravel(call_gcirc(m[0], m[1], m[2], m[3], inf['units'])),
+                                          np.ravel(call_gcirc(m[2], m[3], m[0], m[1], inf['units']))])
+                    ref = np.ravel(call_gcirc(*[np.array(v, dtype=float) for v in a], inf['units']))
+                    ref = np.concatenate([ref, ref])
                 else:
-                    got = [call_gcirc(*[as_form(v[j], form) for v in a], inf['units']) for j in range(len(a[0]))]
-                    ref = [call_gcirc(*[float(v[j]) for v in a], inf['units']) for j in range(len(a[0]))]
+                    got, ref = [], []
+                    for j in range(len(a[0])):
+                        m = gcirc_mixed_args([v[j] for v in a], form, mix, False)
+                        got += [call_gcirc(m[0], m[1], m[2], m[3], inf['units']), call_gcirc(m[2], m[3], m[0], m[1], inf['units'])]
+                        ref += [call_gcirc(*[float(v[j]) for v in a], inf['units'])] * 2
                 rec['disc'], rec['nan'] = _maxdisc(got, ref, 'ppb')
             elif fn in ('radec_to_munu', 'munu_to_radec'):
                 sv = as_form(inf['stripe'], inf['sform'])
+                form = {'all': (form, form), 'lon': (form, None), 'lat': (None, form)}[mix]
                 if fn == 'radec_to_munu':
                     g = coord_values(tr_munu(make_icrs(inf['lon'], inf['lat'], form=form), sv))
                     r = coord_values(tr_munu(make_icrs(inf['lon'], inf['lat']), inf['stripe']))
@@ -1202,7 +1258,8 @@ def form_probe(inf):
                 if g.shape == r.shape and not rec['nan']:
                     rec['disc'] = max(ndeg(x) for x in deg_sep(g[:, 0], conv(g[:, 1]), r[:, 0], conv(r[:, 1])))
             else:
-                g = cap_distance(as_form(inf['x'], form, True), as_form(inf['cm'], form), as_form(inf['arr2'], form, True))
+                fx, fc, fp = [(form if mix in ('all', m) else 'float64') for m in ('x', 'cm', 'points')]
+                g = cap_distance(as_form(inf['x'], fx, True), as_form(inf['cm'], fc), as_form(inf['arr2'], fp, True))
                 r = cap_distance(np.array(inf['x'], dtype=float), float(inf['cm']), np.array(inf['arr2'], dtype=float))
                 rec['polar'] = True          # arccos of +-1 for points on the axis of the cap
                 rec['disc'], rec['nan'] = _maxdisc(g, r, 'ndeg')
@@ -1240,7 +1297,13 @@ def form_records(rng, reps, stripes):
                 if form != 'pyint' and max(ra2) > np.iinfo(form).max:
                     ra2[7], dec2[7] = ra1[7], dec1[7]
                 for arr in ((True, False) if form != 'pyint' else (False,)):
-                    emit({'probe': 'form', 'fn': 'gcirc', 'form': form, 'arr': arr, 'units': units, 'args': [ra1, dec1, ra2, dec2]})
+                    emit({'probe': 'form', 'fn': 'gcirc', 'form': form, 'mix': 'all', 'arr': arr, 'units': units, 'args': [ra1, dec1, ra2, dec2]})
+                # the integer type for a subset of the arguments only (three of the admitted subsets, rotating)
+                mixes = [m for m in sorted(GC_MIX_ARGS) if m != 'all' and mix_ok(m, form)]
+                for q in range(3 if form != 'pyint' else 2):
+                    m = mixes[(rep * 3 + units + q * (1 if form == 'pyint' else 2) + (NP_FORMS.index(form) if form != 'pyint' else 0)) % len(mixes)]
+                    emit({'probe': 'form', 'fn': 'gcirc', 'form': form, 'mix': m, 'arr': (rep + q) % 2 == 0 or m.startswith(('scalar-', 'pyint-')),
+                          'units': units, 'args': [ra1, dec1, ra2, dec2]})
             if form == 'pyint':
                 continue
             # ---- the transforms: whole-degree coordinate arrays, integer-typed stripe number
@@ -1248,8 +1311,9 @@ def form_records(rng, reps, stripes):
             for fn in ('radec_to_munu', 'munu_to_radec'):
                 lon = [rng_int(form, 0, 359) for _ in range(6)] + [95, 0]
                 lat = [rng_int(form, -89, 89) for _ in range(6)] + [0, rng_int(form, 0, 90)]
-                emit({'probe': 'form', 'fn': fn, 'form': form, 'arr': True, 'stripe': s, 'sform': NP_FORMS[(rep + NP_FORMS.index(form)) % 8],
-                      'lon': lon, 'lat': lat})
+                for m in ('all', 'lon', 'lat'):
+                    emit({'probe': 'form', 'fn': fn, 'form': form, 'mix': m, 'arr': True, 'stripe': s,
+                          'sform': NP_FORMS[(rep + NP_FORMS.index(form)) % 8], 'lon': lon, 'lat': lat})
             for fn in ('stripe_to_eta', 'stripe_to_incl'):
                 emit({'probe': 'form', 'fn': fn, 'form': form, 'arr': False, 'stripe': s})
             # ---- angles <-> vectors and cap_distance
@@ -1263,9 +1327,11 @@ def form_records(rng, reps, stripes):
             axis = rng.choice([[0, 0, 1], [1, 0, 0], [0, 1, 0]] + ([[0, 0, -1], [-1, 0, 0]] if signed else []))
             cm = rng.choice([1, 2] + ([-1] if signed else []))
             pts = [[rng_int(form, 0, 359), rng_int(form, -90, 90)] for _ in range(6)] + [[0, 0], [90, 0]]
-            emit({'probe': 'form', 'fn': 'cap_distance', 'form': form, 'arr': True, 'x': axis, 'cm': cm, 'arr2': pts})
-            emit({'probe': 'form', 'fn': 'cap_distance', 'form': form, 'arr': True, 'x': axis, 'cm': cm,
-                  'arr2': [[1, 0, 0], [0, 1, 0], [0, 0, 1]]})
+            for q, m in enumerate(('all', 'x', 'cm', 'points')):
+                emit({'probe': 'form', 'fn': 'cap_distance', 'form': form, 'mix': m, 'arr': True, 'x': axis, 'cm': cm,
+                      'arr2': pts if (q + rep) % 2 == 0 else [[1, 0, 0], [0, 1, 0], [0, 0, 1]]})
+            emit({'probe': 'form', 'fn': 'cap_distance', 'form': form, 'mix': 'all', 'arr': True, 'x': axis, 'cm': cm,
+                  'arr2': [[1, 0, 0], [0, 1, 0], [0, 0, 1]] if rep % 2 == 0 else pts})
     return recs, info
 
 
@@ -1687,7 +1753,8 @@ def replay(ctx, case):
         if c['kind'] == 'anchor':
             sh = (case.get('observed') or {}).get('shape')
             forms = [None, 'scalar'] + ([tuple(sh)] if isinstance(sh, list) else list(ANCHOR_SHAPES[:3]))
-            forms += [('int', f, 'pyint' if k % 2 else f) for k, f in enumerate(NP_FORMS) if f in exp.get('forms', ())]
+            forms += [('int', f, 'pyint' if k % 2 else f, m) for k, f in enumerate(NP_FORMS) if f in exp.get('forms', ())
+                      for m in ('all', 'lon', 'lat')]
             good, obs, dev = True, None, None
             for f in forms:
                 g, o, dv = replay_anchor_group(c['stripe'], c['dir'], [(c, exp)], None, f)[0]
